@@ -246,9 +246,20 @@ def run_property(pid, cfg, tier, seed, jobs, update_ledger, t0):
                                                  function=tgt, obligation=o['key'], inputs=f['inputs'], observed=f['observed'], modules=cfg['modules']))
         violations.append((stem, path, ''))
         continue
-      o = bad[0]
+      sat_ones = [x for x in bad if x['status'] == 'sat']
+      o = sat_ones[0] if sat_ones else bad[0]
       in_ledger = stem in ledger and ledger[stem]['discharged'] == ledger[stem]['count']
-      if in_ledger or o['status'] == 'sat':
+      # A refuted obligation (the solver exhibits a counter-model: `sat`) is reported as a violation. An obligation that
+      # merely fails to discharge (`unknown` / timeout) is UNDECIDED even if the ledger says it was discharged on the
+      # unchanged tree: a behaviour-preserving rewrite of a loop breaks proofs without breaking the property, and a
+      # failed proof is not a violation (PYVC_STRICT_LEDGER=1 restores the older, stricter reading).
+      strict = os.environ.get('PYVC_STRICT_LEDGER') == '1'
+      spurious = bool(sat_ones) and all((x.get('ce') or (None,))[0] == 'spurious' for x in sat_ones)
+      if spurious and not strict:
+        # every counter-model the solver produced was replayed on the real code and the contract HELD there:
+        # the model exploits an assumed summary, not the code ("needs contract")
+        undecided.append((tgt, f"{o['key']}: sat, but the counter-model does not fail on the real code (spurious)"))
+      elif o['status'] == 'sat' or (in_ledger and strict):
         path = write_replay(o['key'], dict(property=pid, kind='failed-obligation', obligation=o['key'], function=tgt,
                                            status=o['status'], verifier_output=o.get('output'), counter_model_replay=o.get('ce'), smt2_head=o.get('smt2_head'),
                                            note='obligation discharged on the unchanged tree (ledger) and not discharged now; '
@@ -256,7 +267,7 @@ def run_property(pid, cfg, tier, seed, jobs, update_ledger, t0):
                                            native_cases=(nat or {}).get('cases')))
         violations.append((stem, path, ' no-failing-input-found'))
       else:
-        undecided.append((tgt, f"{o['key']}: {o['status']} (not in ledger)"))
+        undecided.append((tgt, f"{o['key']}: {o['status']} ({'discharged on the unchanged tree, not discharged now' if in_ledger else 'not in ledger'})"))
     # vacuity: obligation count
     if not r['obligations'] and not r['trusted']:
       crashes.append((tgt, 'zero obligations generated'))
